@@ -49,6 +49,10 @@ type Contract struct {
 	Nilable     bool
 	NoAlloc     bool
 	AllocText   string
+	UseText     []string
+	DecrText    string
+	Uses        []*ssa.Function
+	Decr        *ssa.Function
 	File        string
 	Line        int
 
@@ -61,7 +65,7 @@ type Contract struct {
 }
 
 var clauseKW = map[string]bool{"func": true, "requires": true, "ensures": true, "modifies": true, "loop": true,
-	"trusted": true, "inline": true, "nilable": true, "noalloc": true, "alloc-bounded": true}
+	"trusted": true, "inline": true, "nilable": true, "noalloc": true, "alloc-bounded": true, "use": true, "decreases": true}
 
 // parseContractFile extracts the contracts of one file.
 func parseContractFile(path string, src []byte) ([]*Contract, string, error) {
@@ -135,6 +139,10 @@ func parseContractFile(path string, src []byte) ([]*Contract, string, error) {
 			cur.Nilable = true
 		case "noalloc":
 			cur.NoAlloc = true
+		case "use":
+			cur.UseText = append(cur.UseText, text)
+		case "decreases":
+			cur.DecrText = text
 		case "alloc-bounded":
 			cur.AllocText = strings.TrimSpace(strings.TrimPrefix(text, "by"))
 		case "loop":
@@ -453,6 +461,12 @@ func genContractCode(c *Contract) (string, error) {
 		}
 		fmt.Fprintf(&sb, "func %s_mod(%s) {\n\tgocv_mod(%s)\n}\n", m, c.Params, strings.Join(locs, ", "))
 	}
+	for k, t := range c.UseText {
+		fmt.Fprintf(&sb, "func %s_use%d(%s) {\n\t%s\n}\n", m, k, c.Params, t)
+	}
+	if c.DecrText != "" {
+		fmt.Fprintf(&sb, "func %s_decr(%s) int {\n\treturn %s\n}\n", m, c.Params, c.DecrText)
+	}
 	if c.AllocText != "" {
 		e, _, err := rewriteExpr(c.AllocText)
 		if err != nil {
@@ -496,6 +510,12 @@ func bindContract(c *Contract, pkg *ssa.Package) error {
 	}
 	if c.AllocText != "" {
 		c.Alloc = pkg.Func(m + "_alloc")
+	}
+	for k := range c.UseText {
+		c.Uses = append(c.Uses, pkg.Func(fmt.Sprintf("%s_use%d", m, k)))
+	}
+	if c.DecrText != "" {
+		c.Decr = pkg.Func(m + "_decr")
 	}
 	c.Loops = map[int]*LoopSpec{}
 	for ord, ls := range c.LoopsSrc {
